@@ -320,6 +320,33 @@ def run_case(case):
             require(got3 == want3, "not-a-partition",
                     f"N={N}: batches 1-3 of the fresh sow do not hold the "
                     f"settings exactly once")
+        regroup = None
+        if 2 <= B < 10 and cases is None and (N + B) % 3 == 0:
+            # the crop that has just been sown is asked, at the sow call, for
+            # ONE batch holding everything.  The request may be refused; if
+            # it is accepted the batch files are batch 1 and nothing else
+            try:
+                with under_test("re-sow into one batch", expect=(ValueError,)):
+                    crop.sow_combos(combos, constants=consts, shuffle=shuffle,
+                                    verbosity=0, batchsize=N)
+                regroup = "accepted"
+            except ValueError:
+                regroup = "refused"
+            if regroup == "accepted":
+                have = crops.batch_ids(root, "c7")
+                require(have == [1], "batch-ids",
+                        f"N={N}: after an accepted re-sow with batchsize={N} "
+                        f"over {B} batches the batch files are {have}")
+                b1 = crops.read_batch(root, "c7", 1)
+                models.LOG.clear()
+                x.combo_runner(fn, combos, constants={**extra, **consts},
+                               verbosity=0)
+                require(collections.Counter(models.canon_kw(kw) for kw in b1)
+                        == collections.Counter(models.canon_kw(kw)
+                                               for kw in models.LOG),
+                        "not-a-partition",
+                        f"N={N}: the single batch of the re-sow does not "
+                        f"hold the settings exactly once")
     nt = (N % B != 0) or (spec is not None and spec[1] > N)
     return {"nontrivial": nt,
             "classes": [f"real={case['real']}", f"shuffle={shuffle}",
